@@ -727,7 +727,10 @@ PPL::Grid::relation_with(const Constraint& c) const {
         Grid_Generator gen(g);
         const Grid_Generator& point = *first_point;
         const Coefficient& p_div = point.divisor();
-        const Coefficient& g_div = gen.divisor();
+        // A copy: the divisor is stored inside `gen.expr', which is
+        // modified (and, if sparse, possibly reallocated) below.
+        PPL_DIRTY_TEMP_COEFFICIENT(g_div);
+        g_div = gen.divisor();
         gen.expr.linear_combine(point.expr, p_div, -g_div,
                                 1, gen.expr.space_dimension());
         gen.expr.set_inhomogeneous_term(g_div * p_div);
